@@ -4,6 +4,8 @@ from gymnasium.spaces import Discrete, Dict
 
 from abmarl.sim import is_agent
 
+from .sar_wrapper import has_null_point
+
 
 class CommunicationHandshakeWrapper(Wrapper):
     """
@@ -46,6 +48,21 @@ class CommunicationHandshakeWrapper(Wrapper):
                 other_id: Discrete(2) for other_id in self.agents if other_id != agent.id
             })
             agent.observation_space = Dict(obs_space_helper)
+
+            # The null points live in the new spaces too: no message sent, received,
+            # or waiting in the buffer.
+            others = [other_id for other_id in self.agents if other_id != agent.id]
+            if has_null_point(agent.null_action):
+                agent.null_action = {
+                    'action': agent.null_action,
+                    'send': {other_id: 0 for other_id in others},
+                    'receive': {other_id: 0 for other_id in others},
+                }
+            if has_null_point(agent.null_observation):
+                agent.null_observation = {
+                    'obs': agent.null_observation,
+                    'message_buffer': {other_id: 0 for other_id in others},
+                }
 
     def reset(self, **kwargs):
         """
